@@ -8,8 +8,9 @@
     nothing of the trie's shape or of the order in which hostnames arrived.
     [plain_history]: every tree frontend of the history is on a hostname that
     is non-empty, has no '/', and no leading '.' (exact and wild-card names).
-    Hostnames with /regex/ segments are the open known finding `regex-host`:
-    for them the statements are false ([regex_hosts_order_refuted]). *)
+    Hostnames with /regex/ segments are outside the theorems (modelled and
+    checked by correspondence + oracle only; five defects of that feature were
+    found and fixed, see known_findings.json). *)
 From Coq Require Import List Arith NArith ZArith Lia Permutation.
 From SV Require Import Common.Trie Common.TrieProofs C04.Model C04.Proofs.
 Import ListNotations.
@@ -204,12 +205,18 @@ Theorem unrelated_refuted :
     <> route_lookup (fun _ _ => false) (run (fun _ => true) (fun _ _ => false) hist) h path m.
 Proof. exact unrelated_refuted_lemma. Qed.
 
-(** with /regex/-segment hostnames the order of two adds decides the route *)
-Theorem regex_hosts_order_refuted :
-  exists f1 f2 h path m,
-    route_lookup (fun _ _ => true) (run (fun _ => true) (fun _ _ => true) [OAdd f1; OAdd f2]) h path m
-    <> route_lookup (fun _ _ => true) (run (fun _ => true) (fun _ _ => true) [OAdd f2; OAdd f1]) h path m.
-Proof. exact regex_hosts_order_refuted_lemma. Qed.
+(** /regex/-segment hostnames are outside [plain_history]: they are modelled
+    (same trie model) and checked on every run by the correspondence and by the
+    driver's oracle, not by the theorems above.  The former witness of order
+    dependence now routes alike in both orders: *)
+Example regex_hosts_former_witness :
+  let f1 := w_front w_w_re_a_com [47]%N [48]%N in
+  let f2 := w_front w_re_a_com [47]%N [49]%N in
+  route_lookup (fun _ _ => true) (run (fun _ => true) (fun _ _ => true) [OAdd f1; OAdd f2]) w_xyz_a_com [47]%N [71]%N
+  = route_lookup (fun _ _ => true) (run (fun _ => true) (fun _ _ => true) [OAdd f2; OAdd f1]) w_xyz_a_com [47]%N [71]%N
+  /\ route_lookup (fun _ _ => true) (run (fun _ => true) (fun _ _ => true) [OAdd f1; OAdd f2]) w_xyz_a_com [47]%N [71]%N
+     = Some (mkroute (Some [49]%N) 0%Z false).
+Proof. split; vm_compute; reflexivity. Qed.
 
 (** ** non-vacuity *)
 Example selection_nonvacuous :
